@@ -82,7 +82,12 @@ def converter_entry_rule(ck, P, rule="E-COMP-PIPE"):
     ck.anchor(rule, "TilesConverterParameters fields", sorted(fields), 5)
     blk = ir.fn_block(b)
     al = ir.Aliases(b)
-    pars = {x["name"]: al.canon(x["hid"]) for p_ in b["params"] for x in ir.pat_binds(p_)}
+    pars = {}
+    for p_ in b["params"]:
+        for x in ir.pat_binds(p_):
+            role = "reader" if "TilesReaderTrait" in x["t"] else ("cp" if x["t"].endswith("TilesConverterParameters") else None)
+            if role:
+                pars[role] = al.canon(x["hid"])
     # async desugaring re-binds the parameters: canonical hids through `let x = x`
     def root(n):
         h = al.hid(ir.strip(n))
@@ -163,8 +168,31 @@ def override_order_rule(ck, P):
              "the compression override is applied after the reader was wrapped: %s — the wrapper keeps advertising (and recompressing from) the old compression" % bad[:2])
 
 
+def reader_declares_rule(ck, P, rule="E-COMP-WIRE"):
+    """what a single-file reader DECLARES about its tiles comes from the header fields that describe the tiles: the PMTiles header has two
+    compression bytes (internal = directories and metadata, tile = the tiles) and a tile type; the versatiles header a format and a
+    compression.  The parameters the reader publishes are built from exactly those."""
+    table = {"pmtiles::reader::PMTilesReader::open_reader": ("tile_type", "tile_compression"),
+             "versatiles::reader::VersaTilesReader::open_reader": ("tile_format", "compression")}
+    for suffix, (ffmt, fcomp) in table.items():
+        fb = [b for b in P.bodies if b["q"].endswith(suffix)]
+        if not ck.anchor(rule, suffix.rsplit("::", 2)[-2] + "::open_reader", fb, 1):
+            continue
+        b = fb[0]
+        lets = comp.lets_of(b)
+        new = [y for y in ir.walk_nodes(b["body"]) if y.get("k") == "call" and (y.get("q") or "").endswith("TilesReaderParameters::new")]
+        ok, why = False, "%d TilesReaderParameters::new calls" % len(new)
+        if len(new) == 1:
+            a0, a1 = comp.deep_place(new[0]["a"][0], lets), comp.deep_place(new[0]["a"][1], lets)
+            ok = (".%s" % ffmt) in a0 and (".%s" % fcomp) in a1 and "header" in a0.split(".")[0] + a1.split(".")[0]
+            why = "format from `%s`, compression from `%s`" % (a0, a1)
+        ck.check(ok, rule, suffix.rsplit("::", 2)[-2] + "|declares", "the reader declares the tile format from header.%s and the tile compression from header.%s" % (ffmt, fcomp),
+                 "the parameters of %s are not built from header.%s / header.%s (%s): the compression it declares is not the one its tiles are stored with" % (suffix.rsplit("::", 2)[-2], ffmt, fcomp, why), ir.loc(b))
+
+
 def rules(ck, P):
     converter_paths_rule(ck, P)
+    reader_declares_rule(ck, P)
     converter_entry_rule(ck, P)
     override_order_rule(ck, P)
     # the pmtiles target keeps its (compressed) metadata and root directory apart: see wire.pm_layout_rules
